@@ -299,6 +299,12 @@ def gen_igspaint():
     if b != ('let mut pixels = Vec::new(); for i in &self.screen { let (r, g, b) = self.pen_colors[*i as usize].get_rgb(); pixels.push(r); pixels.push(g); pixels.push(b); '
              'if r == 0 && g == 0 && b == 0 { pixels.push(0); } else { pixels.push(255); } } Some((self.get_resolution(), pixels))'):
         raise ExtractError('igs get_picture_data changed')
+    # round_rect: the corner offsets are scaled in i64 (repaired; Model/IgsPaint.lean `roundRect.sc` has no overflow outcome there)
+    rr = norm(strip_comments(fn_body(p, r'fn round_rect\(&mut self, x1: i32, y1: i32, x2: i32, y2: i32, parameters: i32\) \{', 'round_rect')))
+    if ('let scale = |k: i64, r: i32| (k * r as i64 / 32767) as i32; '
+        'let x_off = [0, scale(12539, x_radius), scale(23170, x_radius), scale(30273, x_radius), x_radius]; '
+        'let y_off = [y_radius, scale(30273, y_radius), scale(23170, y_radius), scale(12539, y_radius), 0];') not in rr:
+        raise ExtractError('round_rect: the i64 scaling of the corner offsets is gone / changed')
     # polymarker stroke tables (draw_poly_maker)
     pm = fn_body(p, r'fn draw_poly_maker\(&mut self, x0: i32, y0: i32\) \{', 'draw_poly_maker')
     markers = re.findall(r'PolymarkerType::(\w+) => vec!\[([^\]]*)\]', pm)
